@@ -56,6 +56,7 @@ func VerifC19_DriverListSearch() {
 	}
 
 	verifSched(verifParam("c19sched", 1))
+	verifSchedPreempt(verifParam("c19preempt", 1) == 1)
 	res, err := Minimize(p, []float64{0}, settings, &ListSearch{Locs: locs})
 	verifAssert(verifSchedDrain() == 0, "Minimize leaves no goroutine behind")
 	verifAssert(err == nil, "no error")
